@@ -187,6 +187,8 @@ pub enum DriverPlan {
     Overlap,
     Hold(u32),
     Script(Vec<(u32, u8)>),
+    /// long-running systems (milliseconds), ends of the groups of a stage far apart
+    Slow(u64),
 }
 
 /// Decides the (E-oracle) verdict for one escaped panic payload.
@@ -260,6 +262,7 @@ pub fn exec_sync_with_fault(inst: &mut Inst, m: DMode, dp: &DriverPlan, ndisp: u
                 sc = Some(x.clone());
                 x
             }
+            DriverPlan::Slow(s) => Arc::new(Slow { seed: mix(*s, di as u64) }),
         };
         sum.driver = driver.name();
         let out = inst.run(m, driver);
@@ -370,6 +373,7 @@ pub fn exec_async(plan: &Plan, twin: &Layout, pool: &Pool, pool_size: usize, dp:
                 h
             }
             DriverPlan::Jitter(s, lvl) => Arc::new(Jitter { seed: mix(*s, di as u64), level: *lvl }),
+            DriverPlan::Slow(s) => Arc::new(Slow { seed: mix(*s, di as u64) }),
             _ => Arc::new(Free),
         };
         sum.driver = driver.name();
@@ -553,6 +557,15 @@ fn pick_driver(prop: &str, rng: &mut Rng, inst: &Inst, mode: RunMode, pool_ok: b
             .cloned()
     };
     let jitter = |rng: &mut Rng| DriverPlan::Jitter(rng.next(), if rng.chance(1, 5) { 1 } else { 0 });
+    // now and then (small plans, parallel modes): systems that run for milliseconds
+    let slow_share = match prop {
+        "c02" | "c03" => 5,
+        "c12" => 8,
+        _ => 12,
+    };
+    if par && inst.plan.n_systems_total() <= 14 && inst.layout.has_parallel_stage() && rng.chance(1, slow_share) {
+        return DriverPlan::Slow(rng.next());
+    }
     match prop {
         "c02" => {
             // hold a dependency source
@@ -569,7 +582,13 @@ fn pick_driver(prop: &str, rng: &mut Rng, inst: &Inst, mode: RunMode, pool_ok: b
         "c03" => {
             let last_seg = rel.segment.last().cloned().unwrap_or(0);
             let pre: Vec<u32> = (0..rel.units.len()).filter(|&i| rel.segment[i] < last_seg).map(|i| rel.units[i].uid).collect();
-            if !pre.is_empty() && rng.chance(4, 5) {
+            // prefer a pre-barrier system whose stage has three or more groups: then a second group
+            // can be kept slow as well and a third one ends early (staggered ends of one stage)
+            let pos = l.pos();
+            let wide: Vec<u32> = pre.iter().cloned().filter(|u| pos.get(u).map_or(false, |p| l.stages[p.0].len() >= 3 && p.1 > 0)).collect();
+            if !wide.is_empty() && rng.chance(2, 3) {
+                DriverPlan::Hold(*rng.pick(&wide))
+            } else if !pre.is_empty() && rng.chance(4, 5) {
                 DriverPlan::Hold(*rng.pick(&pre))
             } else if !rel.units.is_empty() && rng.chance(1, 2) {
                 // hold any ordinary system: thread-local systems must still wait
